@@ -132,7 +132,11 @@ type HashOptions struct {
 	ctagsPath        string
 	cTagsMustSucceed bool
 	largeFiles       []string
+	trigramMax       int
 }
+
+// defaultTrigramMax is the value SetDefaults gives Options.TrigramMax.
+const defaultTrigramMax = 20000
 
 func (o *Options) HashOptions() HashOptions {
 	return HashOptions{
@@ -141,6 +145,7 @@ func (o *Options) HashOptions() HashOptions {
 		ctagsPath:        o.CTagsPath,
 		cTagsMustSucceed: o.CTagsMustSucceed,
 		largeFiles:       o.LargeFiles,
+		trigramMax:       o.TrigramMax,
 	}
 }
 
@@ -153,6 +158,13 @@ func (o *Options) GetHash() string {
 	hasher.Write(fmt.Appendf(nil, "%d", h.sizeMax))
 	hasher.Write(fmt.Appendf(nil, "%q", h.largeFiles))
 	hasher.Write(fmt.Appendf(nil, "%t", h.disableCTags))
+
+	// TrigramMax decides which documents are skipped, so it is part of the
+	// hash. The default is left out to keep the hashes of existing indexes
+	// valid.
+	if h.trigramMax != 0 && h.trigramMax != defaultTrigramMax {
+		hasher.Write(fmt.Appendf(nil, "trigramMax:%d", h.trigramMax))
+	}
 
 	return fmt.Sprintf("%x", hasher.Sum(nil))
 }
@@ -330,7 +342,7 @@ func (o *Options) SetDefaults() {
 		o.ShardMax = 100 << 20
 	}
 	if o.TrigramMax == 0 {
-		o.TrigramMax = 20000
+		o.TrigramMax = defaultTrigramMax
 	}
 
 	if o.RepositoryDescription.Name == "" && o.RepositoryDescription.URL != "" {
